@@ -45,7 +45,7 @@ def i(t, x):
 
 # leaf operator impls: (op, A, B, C, kind) kind: 'map' = BTreeMap merge (assumed, uninterpreted remainder), 'free' = map-free (remainder 0)
 LEAVES = [
-    ('add', 'Linear', 'f64', 'Linear', 'free'), ('add', 'Linear', 'Linear', 'Linear', 'map'),
+    ('add', 'Linear', 'f64', 'Linear', 'free'), ('add', 'Linear', 'Linear', 'Linear', 'merge'),
     ('add', 'Quadratic', 'f64', 'Quadratic', 'free'), ('add', 'Quadratic', 'Linear', 'Quadratic', 'map'), ('add', 'Quadratic', 'Quadratic', 'Quadratic', 'map'),
     ('add', 'Polynomial', 'f64', 'Polynomial', 'map'), ('add', 'Polynomial', 'Linear', 'Polynomial', 'map'), ('add', 'Polynomial', 'Quadratic', 'Polynomial', 'map'),
     ('add', 'Polynomial', 'Polynomial', 'Polynomial', 'map'),
@@ -74,7 +74,13 @@ def spec_impl(op, a, b, c, req='true'):
 def leaf_spec_text():
     out = ['// ---- leaf remainders: 0 for map-free code, uninterpreted for the assumed BTreeMap-merge leaves ----\n']
     for op, a, b, c, kind in LEAVES:
-        sig = 'pub %s spec fn %s(x: v1::%s, y: %s, m: Map<u64, F64>) -> real' % ('open' if kind == 'free' else 'uninterp', rem_name(op, a, b), a, 'F64' if b == 'f64' else 'v1::' + b)
+        sig = 'pub %s spec fn %s(x: v1::%s, y: %s, m: Map<u64, F64>) -> real' % ('open' if kind in ('free', 'merge') else 'uninterp', rem_name(op, a, b), a, 'F64' if b == 'f64' else 'v1::' + b)
+        if kind == 'merge':
+            # verified leaf: the remainder is DEFINED as the difference to the specified BTreeMap merge (accumulate, drop when |sum| <= EPSILON)
+            assert (op, a, b) == ('add', 'Linear', 'Linear')
+            out.append('pub open spec fn rem_add_linear_linear(x: v1::Linear, y: v1::Linear, m: Map<u64, F64>) -> real {\n'
+                       '    lin_all(x.terms@, m) + lin_all(y.terms@, m) - msum(acc(x.terms@ + y.terms@, (x.terms.len() + y.terms.len()) as int), m)\n}\n')
+            continue
         out.append(sig + (' { 0real }\n' if kind == 'free' else ';\n'))
     # Function-level remainders by case on the dispatch arms (the order of the operands of the leaf call is that of the code)
     def arms(op):
@@ -405,3 +411,63 @@ def macro_units():
                       si('Sub', 'sub', a, b, 'Function', _req_some('self') + (' && rhs.function is Some' if b == 'Function' else '')),
                       'fn sub(self, rhs: %s) -> (r: Function)\n        ensures is_diff_%s(r, self, rhs),' % (T[b]['rust'], low(b))))
     return U
+
+
+
+# ---------------------------------------------------------------- verified BTreeMap-merge leaf: Linear + Linear (entry API with prophecy contracts)
+MERGE_STUBS = '''// BTreeMap::into_iter().map(|(id, coefficient)| Term { id, coefficient }).collect(): the entries in ascending key order (T4)
+#[verifier::external_body]
+pub fn btree_into_terms(m: BTreeMap<u64, F64>) -> (r: Vec<Term>)
+    ensures r.len() == m@.len(),
+        forall|i: int| 0 <= i < r.len() ==> m@.contains_key((#[trigger] r[i]).id) && m@[r[i].id] == r[i].coefficient,
+        forall|i: int, j: int| 0 <= i < j < r.len() ==> r[i].id < r[j].id,
+        forall|k: u64| #[trigger] m@.contains_key(k) ==> exists|i: int| 0 <= i < r.len() && (#[trigger] r[i]).id == k,
+{ unimplemented!() }
+'''
+
+
+def linear_add_linear():
+    N = '(self.terms.len() + rhs.terms.len()) as int'
+    final_proof = '''let ghost n = %s; let ghost am = acc(ch, n);
+        // R20c: the field initialiser `terms: <expr>` is hoisted into a `let` in front of the struct literal (same evaluation order) so that the proof can name it
+        let __t = btree_into_terms(terms);
+        proof {
+            if linear_fin(self) && linear_fin(rhs) {
+                assert(terms_fin(ch)) by { assert forall|i: int| 0 <= i < ch.len() implies fin((#[trigger] ch[i]).coefficient) by {
+                    if i < self.terms.len() { assert(ch[i] == self.terms[i]); } else { assert(ch[i] == rhs.terms[i - self.terms.len()]); } } }
+                assert(am.dom() =~= terms@.dom());
+                assert(lists_map(__t@, __t.len() as int, am));
+                assert forall|m: Map<u64, F64>| lin_sum(__t@, __t.len() as int, m) == msum(am, m) by { lemma_list_sum(__t@, __t.len() as int, am, m); }
+                assert forall|m: Map<u64, F64>| lin_all(ch, m) == lin_all(self.terms@, m) + lin_all(rhs.terms@, m) by { lemma_lin_sum_concat(self.terms@, rhs.terms@, rhs.terms.len() as int, m); }
+            }
+            assert forall|k: u64| lin_ids(__t@, __t.len() as int).contains(k) implies linear_ids(self).union(linear_ids(rhs)).contains(k) by {
+                lemma_lin_ids_mem(__t@, __t.len() as int, k);
+                let i = choose|i: int| 0 <= i < __t.len() && (#[trigger] __t[i]).id == k;
+                assert(terms@.contains_key(__t[i].id));
+                lemma_lin_ids_concat(self.terms@, rhs.terms@, n, k); }
+        }
+        ''' % N
+    return Unit('Add for Linear', 'linear.rs', 'add', impl=r'impl Add for Linear \{', sig='fn add(self, rhs: Self) -> Self', anyhow=False,
+                pre=spec_impl('add', 'Linear', 'Linear', 'Linear'), wrap=('impl core::ops::Add for Linear { type Output = Linear;', '}'),
+                header='''#[verifier::loop_isolation(false)]
+fn add(self, rhs: Self) -> (r: Linear)
+        // the result IS the specified merge of the two term lists: ids strictly increasing, one term per key of acc(..) with its value, the constants added;
+        // hence (remainder defined as the difference to that merge) the value contract shared by all operator impls
+        ensures
+            linear_fin(self) && linear_fin(rhs) ==> lists_map(r.terms@, r.terms.len() as int, acc(self.terms@ + rhs.terms@, %s)) && r.constant@ == XR::Fin(rv(self.constant) + rv(rhs.constant)),
+            forall|i: int, j: int| 0 <= i < j < r.terms.len() ==> r.terms[i].id < r.terms[j].id,
+            linear_fin(self) && linear_fin(rhs) ==> linear_fin(r) && forall|m: Map<u64, F64>| #![trigger linear_val(r, m)] linear_val(r, m) == linear_val(self, m) + linear_val(rhs, m) - rem_add_linear_linear(self, rhs, m),
+            linear_ids(r).subset_of(linear_ids(self).union(linear_ids(rhs))),''' % N,
+                rsubs=[(r'let mut terms = BTreeMap::new\(\);', 'let mut terms: BTreeMap<u64, F64> = BTreeMap::new();', 1),
+                       (r'self\.terms\.iter\(\)\.chain\(rhs\.terms\.iter\(\)\)', 'chain_refs(&self.terms, &rhs.terms)', 1),
+                       (r'(?s)terms\.into_iter\(\)\.map\(\|\(id, coefficient\)\| Term \{ id, coefficient \}\)\.collect\(\)', 'btree_into_terms(terms)', 1)],
+                loops=[dict(kind='for', it='it_1', rebind='*__e',
+                            body_proof=' proof { assert(**__e == ch[it_1.index@ as int]); }',
+                            inv='''invariant
+                ch == self.terms@ + rhs.terms@, __h1.len() == ch.len(),
+                forall|i: int| 0 <= i < ch.len() ==> *(#[trigger] __h1[i]) == ch[i],
+                terms_fin(ch) ==> map_matches(terms@, acc(ch, it_1.index@ as int)),
+                forall|k: u64| #[trigger] terms@.contains_key(k) ==> lin_ids(ch, it_1.index@ as int).contains(k),''')],
+                proofs=[(('before', r'let __h1 = chain_refs'), 'let ghost ch = self.terms@ + rhs.terms@;\n        '),
+                        (('before', r'Self \{\s*terms: __t'), final_proof)],
+                post_subs=[('terms: btree_into_terms(terms),', 'terms: __t,')])
